@@ -30,6 +30,7 @@ type Key = Vec<u8>;
 // scheduling hook: seeded delays, site statistics, parking
 
 static HOOK_SEED: AtomicU64 = AtomicU64::new(0);
+static INGEST_VARIANT: AtomicBool = AtomicBool::new(false);
 static THREAD_NO: AtomicU64 = AtomicU64::new(0);
 static DELAY_PERMILLE: AtomicU64 = AtomicU64::new(0);
 static SITE_HITS: Mutex<BTreeMap<&'static str, u64>> = Mutex::new(BTreeMap::new());
@@ -187,6 +188,9 @@ struct Shared {
     counters: Mutex<Counters>,
     gkeys: Vec<Key>,
     dkeys: Vec<Key>,
+    /// keys only the bulk-ingestion thread writes (every ingestion rewrites all of them)
+    ikeys: Vec<Key>,
+    ingest: AtomicBool,
 }
 
 impl Shared {
@@ -280,7 +284,12 @@ fn guarded<F: FnOnce() -> Result<(), Violation>>(sh: &Shared, role: &str, f: F) 
         Ok(Err(v)) => sh.fail(v),
         Err(_) => {
             let p = hooks::take_panic().unwrap_or_default();
-            sh.fail(viol(&format!("panic:{role}:{}", p.rsplit(" @ ").next().unwrap_or("")), format!("{role} thread panicked: {p}")));
+            if p.contains("vptr was not matched with blob") && sh.ingest.load(Ordering::Relaxed) {
+                // the known relocation defect (ingested blob frames), not a concurrency matter
+                sh.fail(Violation::new(&["C08", "C14"], "panic:vptr-not-matched:tree-holds-ingested-blob-frames", format!("{role} thread panicked: {p}")));
+            } else {
+                sh.fail(viol(&format!("panic:{role}:{}", p.rsplit(" @ ").next().unwrap_or("")), format!("{role} thread panicked: {p}")));
+            }
         }
     }
 }
@@ -361,6 +370,7 @@ fn reader(sh: &Shared, seed: u64, id: u64) -> Result<(), Violation> {
             continue;
         }
         let hold = rng.range(1, 12);
+        let iview = if sh.ingest.load(Ordering::Relaxed) { Some(ingest_view(sh, s)?) } else { None };
         for _ in 0..hold {
             if rng.chance(1, 5) {
                 // scan (either direction): per key, the value must be one the writer's log allows at s
@@ -372,7 +382,7 @@ fn reader(sh: &Shared, seed: u64, id: u64) -> Result<(), Violation> {
                 for g in items {
                     match g.into_inner() {
                         Ok((k, v)) => {
-                            if !k.starts_with(b"d") {
+                            if !k.starts_with(b"d") && !k.starts_with(b"~i") {
                                 got.push((k.to_vec(), v.to_vec()));
                             }
                         }
@@ -432,6 +442,18 @@ fn reader(sh: &Shared, seed: u64, id: u64) -> Result<(), Violation> {
                 }
             }
         }
+        if let Some(first) = iview {
+            // the same snapshot must keep seeing the same ingestion
+            let again = ingest_view(sh, s)?;
+            sh.count("ingest_view_comparisons", 1);
+            if again != first {
+                return Err(Violation::new(
+                    &["C02", "C14"],
+                    "snapshot-sees-later-ingestion",
+                    format!("held snapshot {s} first saw ingestion batch {:?}, later {:?}", first.map(|v| esc(&v)), again.map(|v| esc(&v))),
+                ));
+            }
+        }
         sh.close_snapshot(s);
     }
     Ok(())
@@ -451,6 +473,45 @@ fn flusher(sh: &Shared, seed: u64) -> Result<(), Violation> {
         std::thread::sleep(Duration::from_micros(rng.below(400)));
     }
     Ok(())
+}
+
+/// Bulk-ingestion thread: every ingestion rewrites all i-keys with one batch id.
+fn ingester(sh: &Shared, seed: u64) -> Result<(), Violation> {
+    set_thread(7, 60);
+    let mut rng = Rng::derive(seed, 700);
+    let mut batch = 0u64;
+    while !sh.stop.load(Ordering::Relaxed) {
+        batch += 1;
+        let mut ing = sh.tree.ingestion().map_err(|e| Violation::new(&["C14"], "error:ingestion", format!("ingestion() returned Err: {e:?}")))?;
+        for k in &sh.ikeys {
+            ing.write(k.clone(), format!("I{batch:08}").into_bytes()).map_err(|e| Violation::new(&["C14"], "error:ingestion", format!("ingestion write returned Err: {e:?}")))?;
+        }
+        ing.finish().map_err(|e| Violation::new(&["C14"], "error:ingestion", format!("ingestion finish returned Err: {e:?}")))?;
+        sh.count("ingestions", 1);
+        std::thread::sleep(Duration::from_micros(rng.below(1500)));
+    }
+    Ok(())
+}
+
+/// What a held snapshot sees of the ingested keys: all of one batch (or nothing).
+fn ingest_view(sh: &Shared, s: u64) -> Result<Option<Vec<u8>>, Violation> {
+    let mut seen: Option<Option<Vec<u8>>> = None;
+    for k in &sh.ikeys {
+        let v = sh.tree.get(k, s).map_err(|e| viol("read-error", format!("get of an ingested key at snapshot {s} returned Err: {e:?}")))?.map(|v| v.to_vec());
+        match &seen {
+            None => seen = Some(v),
+            Some(first) => {
+                if *first != v {
+                    return Err(Violation::new(
+                        &["C14", "C02"],
+                        "ingestion-not-atomic",
+                        format!("snapshot {s} sees key {:?} of batch {:?} but another ingested key of batch {:?}: an ingestion became visible partially", esc(k), v.map(|v| esc(&v)), first.as_ref().map(|v| esc(v))),
+                    ));
+                }
+            }
+        }
+    }
+    Ok(seen.flatten())
 }
 
 /// Extra rotation threads: rotation may be requested by several parties at once (write path,
@@ -603,6 +664,8 @@ fn setup(seed: u64, case: u64, dir: &Path) -> Result<(Arc<Shared>, TreeCfg, J), 
         counters: Mutex::new(Counters::new()),
         gkeys,
         dkeys,
+        ikeys: (0..6).map(|i| format!("~i{i:02}").into_bytes()).collect(),
+        ingest: AtomicBool::new(false),
     });
     Ok((sh, cfg, sample))
 }
@@ -622,6 +685,9 @@ fn stress(seed: u64, case: u64, scratch: &Path, n_ops: usize) -> ExecResult {
     let n_readers = rng.range(2, 4);
     let n_compactors = rng.range(2, 3);
     let n_rotators = rng.range(0, 2);
+    let with_ingest = INGEST_VARIANT.load(Ordering::Relaxed) || rng.chance(1, 4);
+    sh.ingest.store(with_ingest, Ordering::Relaxed);
+    sample.set("ingester", J::Bool(with_ingest));
     sample.set("rotators", J::i(n_rotators));
     sample.set("readers", J::i(n_readers));
     sample.set("compactors", J::i(n_compactors));
@@ -666,6 +732,13 @@ fn stress(seed: u64, case: u64, scratch: &Path, n_ops: usize) -> ExecResult {
         handles.push(std::thread::spawn(move || {
             let s = sh2.clone();
             guarded(&sh2, "rotator", move || rotator(&s, seed ^ case, id));
+        }));
+    }
+    if with_ingest {
+        let sh2 = sh.clone();
+        handles.push(std::thread::spawn(move || {
+            let s = sh2.clone();
+            guarded(&sh2, "ingester", move || ingester(&s, seed ^ case));
         }));
     }
     {
@@ -931,6 +1004,7 @@ pub fn cmd(args: &Args) -> i32 {
     let max_cases = args.u("cases", 50);
     let limit = Duration::from_secs(args.u("time-limit", 30));
     let n_ops = args.u("writer-ops", 400) as usize;
+    INGEST_VARIANT.store(args.s("variant", "") == "ingest", Ordering::Relaxed);
     let out = args.s("out", "");
     let replay_dir = PathBuf::from(args.s("replay-dir", "/verif/replays"));
     let scratch = crate::scratch_dir(args);
